@@ -125,16 +125,50 @@ def s_ends_with_sym(e, st, callee, args, dty):
     return Bool(z3.And(*[s.items[k + j] == p.items[j] for j in range(len(p.items))]) if p.items else z3.BoolVal(True))
 
 
+def _latin1_only(e, st, items):
+    """every non-ASCII byte is the lead byte 0xC3 or a continuation byte right after it (characters U+00C0..U+00FF)"""
+    conds = []
+    for j, b in enumerate(items):
+        ok = b == B8(0xC3)
+        if j > 0:
+            ok = z3.Or(ok, z3.And(items[j - 1] == B8(0xC3), inr(b, 0x80, 0xBF)))
+        conds.append(z3.Or(z3.ULT(b, B8(0x80)), ok))
+    return z3.And(*conds) if conds else z3.BoolVal(True)
+
+
+def _lower_bytes(items, unicode_=True):
+    out = []
+    for j, b in enumerate(items):
+        low = z3.If(inr(b, 0x41, 0x5A), b + B8(0x20), b)
+        if unicode_ and j > 0:
+            # U+00C0..U+00DE except U+00D7 (c3 80 .. c3 9e, not c3 97) fold to +0x20
+            low = z3.If(z3.And(items[j - 1] == B8(0xC3), inr(b, 0x80, 0x9E), b != B8(0x97)), b + B8(0x20), low)
+        out.append(low)
+    return out
+
+
 def s_to_lowercase_ascii(e, st, callee, args, dty):
-    """str::to_lowercase for strings whose bytes are all ASCII (the obligation restricts case-insensitive runs to ASCII)"""
+    """str::to_lowercase for strings of ASCII and Latin-1 letters (U+00C0..U+00FF); other non-ASCII text is not modelled"""
     s = as_str(e, st, args[0])
     if s is None:
         return NotImplemented
-    ascii_only = z3.And(*[z3.ULT(b, B8(0x80)) for b in s.items]) if s.items else z3.BoolVal(True)
-    if e.check(*(list(st.pc) + [z3.Not(ascii_only)])) != z3.unsat:
-        raise Inconclusive("to_lowercase on a possibly non-ASCII string is not modelled")
-    low = [z3.If(inr(b, 0x41, 0x5A), b + B8(0x20), b) for b in s.items]
-    return Str(low, "String")
+    if e.check(*(list(st.pc) + [z3.Not(_latin1_only(e, st, s.items))])) != z3.unsat:
+        raise Inconclusive("to_lowercase on non-ASCII text outside U+00C0..U+00FF is not modelled")
+    return Str(_lower_bytes(s.items), "String")
+
+
+def s_make_ascii_lowercase(e, st, callee, args, dty):
+    """str::make_ascii_lowercase / to_ascii_lowercase: only A-Z are folded"""
+    r = args[0]
+    s = as_str(e, st, r)
+    if s is None:
+        return NotImplemented
+    low = Str(_lower_bytes(s.items, unicode_=False), s.kind)
+    if callee.endswith("to_ascii_lowercase"):
+        return Str(low.items, "String")
+    if isinstance(r, Ref):
+        return ("store", r, low, mirsym.Unit())
+    return NotImplemented
 
 
 def s_regex_build(e, st, callee, args, dty):
@@ -154,6 +188,7 @@ EXTRA.update({
     r"^core::str::(<impl str>::)?ends_with$": s_ends_with_sym,
     r"^(std::str::|alloc::str::)?(<impl str>::)?to_lowercase$": s_to_lowercase_ascii,
     r"^(regex::)?RegexBuilder::build$": s_regex_build,
+    r"(^|::)(make_ascii_lowercase|to_ascii_lowercase)$": s_make_ascii_lowercase,
 })
 
 
@@ -189,6 +224,9 @@ def fragment(cls, name):
     if cls == "U2":
         c, k = u2(name)
         return c, k, ("lit", c)
+    if cls == "L1":      # a letter of U+00C0..U+00FF (two bytes c3 xx, not the signs U+00D7 / U+00F7)
+        b0, b1 = z3.BitVec(name + "_0", 8), z3.BitVec(name + "_1", 8)
+        return [b0, b1], [b0 == B8(0xC3), inr(b1, 0x80, 0xBF), b1 != B8(0x97), b1 != B8(0xB7)], ("lit", [b0, b1])
     if cls == "SEP":
         return S(b"/"), [], ("lit", S(b"/"))
     if cls == "STAR":
@@ -219,6 +257,7 @@ def fragment(cls, name):
 
 FRAGS_ALL = ["PLAIN", "ESC", "U2", "SEP", "STAR", "DSTAR", "QM", "ALT", "OPT", "CLASS", "LITQ", "LITS"]
 FRAGS_ASCII = [f for f in FRAGS_ALL if f != "U2"]
+FRAGS_CI = FRAGS_ASCII + ["L1"]
 
 
 def dir_chars(shape, ci=False):
@@ -229,6 +268,10 @@ def dir_chars(shape, ci=False):
             b = z3.BitVec("d%d" % i, 8)
             chars.append([b])
             cons += [inr(b, 0x01, 0x7F)]
+        elif k == "L":
+            b0, b1 = z3.BitVec("d%d_0" % i, 8), z3.BitVec("d%d_1" % i, 8)
+            chars.append([b0, b1])
+            cons += [b0 == B8(0xC3), inr(b1, 0x80, 0xBF), b1 != B8(0x97), b1 != B8(0xB7)]
         else:
             c, kk = u2("d%d" % i)
             chars.append(c)
@@ -243,6 +286,9 @@ def eqchar(a, b, ci=False):
     if ci and len(a) == 1:
         low = lambda x: z3.If(inr(x, 0x41, 0x5A), x + B8(0x20), x)
         return low(a[0]) == low(b[0])
+    if ci and len(a) == 2:
+        low2 = lambda c: z3.If(z3.And(c[0] == B8(0xC3), inr(c[1], 0x80, 0x9E), c[1] != B8(0x97)), c[1] + B8(0x20), c[1])
+        return z3.And(a[0] == b[0], low2(a) == low2(b))
     return z3.And(*[x == y for x, y in zip(a, b)])
 
 
@@ -319,6 +365,7 @@ def model_bytes(m, items):
 
 
 DSHAPES = [s for n in (1, 2, 3, 4) for s in itertools.product("AU", repeat=n) if s[-1] == "A"]
+DSHAPES_CI = [s for n in (1, 2, 3, 4) for s in itertools.product("AL", repeat=n) if s[-1] == "A" and s.count("L") <= 2]
 
 
 def check_regex_shape(job):
@@ -346,9 +393,7 @@ def check_regex_shape(job):
                     res["cex"].append({"oracle": "new", "regex": model_bytes(m, rbytes).decode("latin1"), "detail": "Regex::new ended with %s %s" % (p.status, p.note[:80])})
                 continue
             rx = p.result.fields[0]
-            for dshape in DSHAPES:
-                if ci and "U" in dshape:
-                    continue
+            for dshape in (DSHAPES_CI if ci else DSHAPES):
                 chars, dcons = dir_chars(dshape)
                 ditems = [b for c in chars for b in c]
                 e2 = new_engine(unroll=8)
@@ -403,11 +448,11 @@ def shapes_for_tier():
         sh += [(s, False) for s in itertools.product(FRAGS_ALL, repeat=n)]
     lead = ["PLAIN", "ESC", "U2", "SEP"]
     sh += [((a, b, c), False) for a in lead for b in FRAGS_ALL for c in ["PLAIN", "SEP", "STAR", "DSTAR", "U2", "ESC"]]
-    sh += [(s, True) for n in (1, 2) for s in itertools.product(FRAGS_ASCII, repeat=n)]
+    sh += [(s, True) for n in (1, 2) for s in itertools.product(FRAGS_CI, repeat=n)]
     if tier() == "thorough":
         sh += [(s, False) for s in itertools.product(FRAGS_ALL, repeat=3) if (s, False) not in set(sh)]
         sh += [((a, b, c, d), False) for a in lead for b in lead for c in FRAGS_ALL for d in ["PLAIN", "SEP", "STAR", "DSTAR"]]
-        sh += [(s, True) for s in itertools.product(FRAGS_ASCII, repeat=3)]
+        sh += [(s, True) for s in itertools.product(FRAGS_CI, repeat=3)]
     return sh
 
 
@@ -422,7 +467,7 @@ def run():
         "is executed with <= 1 include / exclude pattern (wiring), and the exclude test is composed with the reference matcher.",
         assumptions=["reference semantics of the regex fragments (`.` excludes newline, `[^/]` and classes are per character) - validated natively "
                      "against the regex crate on the concretised counterexamples and on a fixed sample each run",
-                     "case-insensitive runs restricted to ASCII (to_lowercase modelled for ASCII only)",
+                     "case-insensitive runs: ASCII and the letters U+00C0..U+00FF (to_lowercase modelled for these)",
                      "regex::RegexBuilder::build is opaque (matching itself is the regex crate)"],
         outside=["glob -> regex translation by nom combinators (pattern.rs) except through the native sample", "the regex engine",
                  "regexes of more than 3 (thorough: 4) fragments, directories of more than 4 characters"])
@@ -504,7 +549,12 @@ def classify(cexs):
         fp = bytes.fromhex(c["fixed_prefix"]) if c.get("fixed_prefix") is not None else None
         body = rx[1:-1]
         multibyte = any(x >= 0x80 for x in d) or any(x >= 0x80 for x in rx)
-        dd = d.lower() if c.get("ci") else d
+        dd = d
+        if c.get("ci"):
+            try:
+                dd = d.decode("utf-8").lower().encode("utf-8")
+            except UnicodeDecodeError:
+                dd = d.lower()
         shape = c["shape"]
         if fp is not None and (dd.startswith(fp) or fp.startswith(dd)):
             role = "is_partial_match:prefix-comparison-counts-bytes-as-characters" if multibyte else "is_partial_match:prefix-comparison"
